@@ -81,6 +81,14 @@ def m1(run: Run, cy: CyProgram):
         its = [(roles[n][2] or "").replace(" ", "") for n in by_pos]
         mode = "tuples"
         cands = set()
+        # an enumeration in a form the rule does not know (reversed ranges,
+        # mirrored indices, while loops) is not judged
+        exotic = [it_ for it_ in its if not re.fullmatch(r"range\([^,]*(,[^,]*)?\)", it_)]
+        if exotic or len(nb_roles) < 3:
+            run.unknowns.append(f"M1: {f.where}: {f.name} enumerates its neighbour tuples "
+                                f"in a form that is not recognised ({exotic[:2]}); "
+                                f"completeness of the clique test not decided")
+            continue
         for k_, it_ in enumerate(its):
             m_ = re.fullmatch(r"range\((\w+)\)", it_)
             if m_:
